@@ -343,6 +343,24 @@ def run(ctx):
         ctx.decide(ok, "C12.before", sp.ident, loc_of(sp, cfg_calls[0] if cfg_calls else W),
                    "before sampling the configuration is written whenever saving it is requested",
                    f"before sampling the configuration is only written under {gcfg}", disc="config")
+        # the proposal: written whenever the instance has one -- no flag, default or file content may switch it off
+        if flow_calls:
+            from ..evalr import State
+            me_ = T.atom(sp.params[0])
+            gts = []
+            cur = flow_calls[0]
+            while cur is not W:
+                p_ = parents[cur]
+                if isinstance(p_, ast.If):
+                    gts.append((fr.eval(p_.test, State()), cur in p_.body or any(cur is x for b in p_.body for x in ast.walk(b))))
+                cur = p_
+            foreign = [(t, pol) for t, pol in gts if any((x[0] == "a" and x != me_) or (x[0] == "attr" and x[1] == me_ and x[2] != "flow") for x in T.subterms(t) if x)]
+            ctx.decide(not foreign, "C12.before", sp.ident, loc_of(sp, flow_calls[0]),
+                       "before sampling the flow is written whenever the instance has one (the only guard is on self.flow)",
+                       f"before sampling the flow is written only when {[('' if pol else 'not ') + T.show(t)[:70] for t, pol in foreign]}: with that switched off a run that is "
+                       "interrupted leaves a file with a checkpoint but no proposal, which the documented resume route cannot load", disc="flow")
+        else:
+            ctx.refute("C12.before", sp.ident, loc_of(sp, W), "the block before the sampler call does not write the flow", disc="flow")
 
 
 def wiring_rule(ctx, repo):
@@ -427,6 +445,7 @@ MUTANTS = [
     M("writer uses another dataset name", _SB, "state, h5_file, path=\"checkpoint\", dsetname=\"state\"", "state, h5_file, path=\"checkpoint\", dsetname=\"latest\"", "C12.route"),
     M("reader default group renamed", _A, "checkpoint_path: str = \"checkpoint\",", "checkpoint_path: str = \"checkpoints\",", "C12.route"),
     M("config and flow written after sampling only", _A, "if checkpoint_path is not None:\n            # Check if sampler supports checkpointing", "if False:\n            # Check if sampler supports checkpointing", "C12.before"),
+    M("pre-sampling flow write switched off by the context's save_flow default", _A, "if self.flow is not None:\n                    # Always store the flow", "if self.flow is not None and (defaults or {}).get(\"save_flow\", True):\n                    # Always store the flow", "C12.before"),
     M("file handle kept open", _SB, "with AspireFile(file_path, \"a\") as h5_file:\n                self.save_checkpoint_to_hdf(\n                    state, h5_file, path=\"checkpoint\", dsetname=\"state\"\n                )",
       "self._h5 = AspireFile(file_path, \"a\")\n            self.save_checkpoint_to_hdf(\n                self._h5 and state, self._h5, path=\"checkpoint\", dsetname=\"state\"\n            )", "C12.close"),
 ]
